@@ -18,7 +18,7 @@ PanicOnly == {"panic"}
 \* bound for the safety runs (the number of good frames before the target is unbounded)
 FrameBound == stats.frames <= MaxFrames
 \* `consumed' is a history variable: it does not influence behaviour
-View == <<queue, senders, term, wstate, epoch, stats, published, reports, result, pc, r, failed>>
+View == <<queue, senders, term, wstate, epoch, stats, published, reports, result, pc, r, failed, rq, lastRep, lines, x>>
 
 CollectorPc == pc[0]
 StatsExact == stats = Fold(consumed, Len(consumed))                         \* counters = sums over whole consumed frames
@@ -35,5 +35,13 @@ NoCollectorPanic == result # "panic"
 NoStuck == ~(CollectorPc = "c_recv" /\ queue = <<>> /\ senders # {} /\ \A w \in Workers : wstate[w] # "run")
 ErrorOnFault == result = "ok" => \A w \in Workers : wstate[w] \notin {"err", "panic"}
 
+\* the CLI output file: one result line per Eb/N0 that was started, in order, complete once Progress has seen Finished
+RECURSIVE UpTo(_)
+UpTo(n) == IF n = 0 THEN <<>> ELSE Append(UpTo(n - 1), n)
+StartedEpochs == Cardinality({ k \in 1..Len(reports) : reports[k] = "final" })
+OneLinePerEbN0 == pc[-1] \in {"p_done", "Done"} => lines = UpTo(StartedEpochs)
+LinesPrefix == \A k \in 1..Len(lines) : lines[k] = k
+
 Termination == <>(CollectorPc = "Done")
+ProgressTerminates == <>(pc[-1] = "Done")
 =============================================================================
